@@ -344,7 +344,7 @@ def encode_file(segs, explicit=False, marker_last=False, endian=None):
 DEFAULT_OPTS = dict(
     max_segs=5, max_chans=4, types=None, inter=None, allow_be=True, lens=(0, 1, 2, 3, 5, 7),
     chunks=(1, 1, 2, 3), p_nometa=0.15, p_newobj=0.4, p_same=0.3, p_nodata=0.15, p_pad=0.15,
-    p_props=0.4, ts_safe=True, p_zero_chunks=0.1, groups=('g', "g'2", ''), extra_objects=True, versions=(4712, 4713),
+    p_props=0.4, ts_safe=True, p_zero_chunks=0.1, groups=('g', "g'2", '', "ft'/s"), extra_objects=True, versions=(4712, 4713),
 )
 
 PROP_NAMES = ['p', 'q', 'wf_increment', 'unit_string', 'é/€', '']
@@ -358,7 +358,7 @@ def gen_file(rng, **kw):
     universe = []
     for i in range(rng.randint(1, o['max_chans'])):
         g = rng.choice(groups)
-        universe.append((qpath(g, 'c%d' % i), rng.choice(types)))
+        universe.append((qpath(g, ('c%d' if rng.random() < 0.85 else "d'/dt%d") % i), rng.choice(types)))
     extra = [qpath()] + [qpath(g) for g in groups] + [qpath('onlygroup')] if o['extra_objects'] else []
     segs, active, last_index = [], [], {}
     nseg = rng.randint(1, o['max_segs'])
